@@ -148,6 +148,26 @@ class StmtMixin:
                 for cur in states:
                     nxt.extend(self.assign(cur, tgt, v, s))
                 states = nxt
+            # `x[k] = L` / `o.f = L` with L a local container: in Python the slot and L are now the
+            # SAME list / dict.  Containers have value semantics here, so L becomes a borrow of the
+            # slot (a later `L.append(..)` must be seen through the slot).
+            if isinstance(s.value, ast.Name) and len(s.targets) == 1 \
+                    and isinstance(s.targets[0], (ast.Subscript, ast.Attribute)) \
+                    and not (isinstance(s.targets[0], ast.Subscript) and isinstance(s.targets[0].slice, ast.Slice)):
+                for cur in states:
+                    lv = cur.env.get(s.value.id)
+                    if normal(cur) and isinstance(lv, SV) and self.is_container_type(lv.ty):
+                        n_obl = len(self.obls)
+                        try:
+                            pl = self.try_place(cur.copy(), self.as_load(s.targets[0]))
+                        except OutsideSubset:
+                            pl = None
+                        del self.obls[n_obl:]      # (the store itself already carried the safety obligations)
+                        if pl is not None and len(pl) == 1 and isinstance(pl[0][1], Place):
+                            cur.env[s.value.id] = pl[0][1]
+                        else:
+                            raise OutsideSubset('a local container stored into %s stays aliased by the local %s'
+                                                % (ast.unparse(s.targets[0]), s.value.id))
             out.extend(states)
         return out
 
